@@ -113,6 +113,15 @@ known("KF3b-toplevel-repeated-variable-query-deterministic", ["C13"],
       "p(2,Y). ?- p(X,X).  returns p(2,_) instead of p(2,2)",
       match_any=[{"clause": c, "repeated_var_query": True} for c in ["answer-set", "answer-multiplicity", "spurious-answer", "prob", "missing-instance"]])
 fixed("FX13-clauseindex-order", ["C13"], "d48c419", "ClauseIndex.find returned candidate clauses out of program order (variable-bucket clauses after constant-bucket ones) and permanently merged buckets", "p(_,1). p(a,2). p(b,3). p(_,4).  engine.query(db, p(a,N)) tried clauses in the order 2,1,4")
+known("KF16-is-list-accepts-partial-lists", ["C16"],
+      "is_list/1 succeeds on a partial list (unbound tail); in Prolog is_list/1 is true only for proper lists. The repository's own test (test/00_builtins.pl, is_list_002) pins this behaviour, so it cannot be repaired without editing the test suite",
+      "q :- is_list([a,b|E]). query(q).   (1, Prolog: 0)",
+      match={"clause": "builtin-answer-set", "functor": "is_list/1"})
+fixed("FX14-succ-zero", ["C16"], "0b9be30", "succ(X, 0) answered X = -1", "?- succ(X, 0).")
+fixed("FX15-arg-bindings", ["C16", "C14"], "0a094a9", "arg/3 did not bind variables of the inspected term: arg(1, g(X,1), a), X == a failed", "t :- arg(1, g(X,1), a), X == a. query(t).")
+fixed("FX16-functor-name-of-number", ["C16"], "72272b2", "functor(3, N, A) answered N = '3' (an atom) instead of 3", "?- functor(3, N, A).")
+fixed("FX17-length-unifyerror", ["C16", "C27"], "fd89bc6", "length(L, -1) raised the internal engine_unify.UnifyError", "?- length(L, -1).")
+fixed("FX18-eq-result-not-resolved", ["C14"], "a2825b1", "X = Y returned bindings that are not the mgu: a variable bound by a later argument stayed unbound in an earlier one", "r(A,B,C) :- g(f(f(A)),f(B)) = g(C,A).  gave C = f(f(f(_other)))")
 fixed("FX1-break-cycles-true-child", ["C01", "C09"], "29bdee9",
       "AssertionError in LogicFormula.get_node(0) from _break_cycles when a disjunction below an evidence node contains the TRUE node",
       "0.1::h(c1). d(c1). d(c2). p(X) :- d(X), r(c1). p(Y) :- d(Y). r(X) :- p(X). r(Y) :- d(Y), h(X). query(p(c1)). evidence(r(c1)).")
